@@ -24,26 +24,13 @@ def _fcp(d):
 
 
 def _with_decoy(fn):
-    """Fresh-process replay first; if that does not reproduce, replay again after exercising the codec on the
-    same-named decoy schema in the same process (state that survives across schemas)."""
+    """In a --primed replay the codec is first exercised on the same-named decoy schema (state that survives across
+    schemas), then the counterexample runs."""
     def wrapped(d):
-        r = fn(d)
-        if r[0] or not d.get("decoy_text"):
-            return r
-        try:
-            from fcp import serde
-            from .fromfcp import schema_from_fcp
-            from .shapes import zero_value
-            f = _fcp_text(d["decoy_text"])
-            sch = schema_from_fcp(f, top=d["top"])
-            v = zero_value(sch, ("struct", d["top"]))
-            serde.decode(f, d["top"], serde.encode(f, d["top"], v))
-        except Exception:
-            pass
-        r2 = fn(d)
-        if r2[0]:
-            return True, "after using a same-named but different schema first in the same process: " + r2[1]
-        return r
+        if d.get("_primed") and d.get("decoy_text"):
+            from .prime import prime
+            prime(d["decoy_text"], ("serde", "layout"))
+        return fn(d)
     wrapped.__name__ = fn.__name__
     return wrapped
 
@@ -220,13 +207,9 @@ replay_serde_encode = _with_decoy(replay_serde_encode)
 replay_serde_decode = _with_decoy(replay_serde_decode)
 def _after_full(fn):
     def wrapped(d):
-        r = fn(d)
-        if r[0] or d.get("full") is None:
-            return r
-        r2 = fn(dict(d, _after_full=True))
-        if r2[0]:
-            return True, "after a longer message was decoded first in the same process: " + r2[1]
-        return r
+        if d.get("_primed") and d.get("full") is not None:
+            return fn(dict(d, _after_full=True))
+        return fn(d)
     return wrapped
 
 
@@ -320,14 +303,7 @@ def _leaf_type(t):
 
 
 def replay_parser_refs(d):
-    r = _replay_parser_refs(d, prime=False)
-    if r[0]:
-        return r
-    # the property must hold whatever the process parsed before: parse a fully resolving variant first, then again
-    r2 = _replay_parser_refs(d, prime=True)
-    if r2[0]:
-        return True, "after parsing a resolving variant of the same template first in the same process: " + r2[1]
-    return r
+    return _replay_parser_refs(d, prime=bool(d.get("_primed")))
 
 
 def _replay_parser_refs(d, prime):
@@ -484,8 +460,9 @@ def replay_reflection(d):
             asg[k] = (v["__float__"], v["bits"])
         else:
             asg[k] = v
-    from .prime import prime
-    prime(rc.COLLIDING, ("serde", "layout"))
+    if d.get("_primed"):
+        from .prime import prime
+        prime(rc.COLLIDING, ("serde", "layout"))
     fcp = _fcp_text(rc.TEMPLATES[d["template"]])
     rc.Patcher(asg=asg).patch(fcp)
     rfcp = get_reflection_schema().unwrap()
